@@ -241,16 +241,16 @@ impl<'a> BTreeReader<'a> {
 
             match header.page_type() {
                 PageType::BTreeLeaf => {
-                    let leaf = LeafNode::from_page(page_data)?;
-                    let exhausted = leaf.cell_count() == 0;
-                    return Ok(Cursor {
+                    let mut cursor = Cursor {
                         storage: self.storage,
                         root_page: self.root_page,
                         current_page,
                         current_index: 0,
-                        exhausted,
+                        exhausted: false,
                         leaf_hops: 0,
-                    });
+                    };
+                    cursor.settle_forward()?;
+                    return Ok(cursor);
                 }
                 PageType::BTreeInterior => {
                     let interior = InteriorNode::from_page(page_data)?;
@@ -281,14 +281,22 @@ impl<'a> BTreeReader<'a> {
                     let leaf = LeafNode::from_page(page_data)?;
                     let cell_count = leaf.cell_count() as usize;
                     if cell_count == 0 {
-                        return Ok(Cursor {
+                        let mut cursor = Cursor {
                             storage: self.storage,
                             root_page: self.root_page,
                             current_page,
                             current_index: 0,
                             exhausted: true,
                             leaf_hops: 0,
-                        });
+                        };
+                        if let Some((page_no, last_index)) =
+                            cursor.find_rightmost_in_subtree(self.root_page)?
+                        {
+                            cursor.current_page = page_no;
+                            cursor.current_index = last_index;
+                            cursor.exhausted = false;
+                        }
+                        return Ok(cursor);
                     }
                     return Ok(Cursor {
                         storage: self.storage,
@@ -427,15 +435,16 @@ impl<'a> BTreeReader<'a> {
                         SearchResult::NotFound(idx) => idx,
                     };
 
-                    let exhausted = index >= leaf.cell_count() as usize;
-                    return Ok(Cursor {
+                    let mut cursor = Cursor {
                         storage: self.storage,
                         root_page: self.root_page,
                         current_page,
                         current_index: index,
-                        exhausted,
+                        exhausted: false,
                         leaf_hops: 0,
-                    });
+                    };
+                    cursor.settle_forward()?;
+                    return Ok(cursor);
                 }
                 PageType::BTreeInterior => {
                     let interior = InteriorNode::from_page(page_data)?;
@@ -1340,16 +1349,16 @@ impl<'a, S: Storage> BTree<'a, S> {
 
             match header.page_type() {
                 PageType::BTreeLeaf => {
-                    let leaf = LeafNode::from_page(page_data)?;
-                    let exhausted = leaf.cell_count() == 0;
-                    return Ok(Cursor {
+                    let mut cursor = Cursor {
                         storage: self.storage,
                         root_page: self.root_page,
                         current_page,
                         current_index: 0,
-                        exhausted,
+                        exhausted: false,
                         leaf_hops: 0,
-                    });
+                    };
+                    cursor.settle_forward()?;
+                    return Ok(cursor);
                 }
                 PageType::BTreeInterior => {
                     let interior = InteriorNode::from_page(page_data)?;
@@ -1383,15 +1392,16 @@ impl<'a, S: Storage> BTree<'a, S> {
                         SearchResult::NotFound(idx) => idx,
                     };
 
-                    let exhausted = index >= leaf.cell_count() as usize;
-                    return Ok(Cursor {
+                    let mut cursor = Cursor {
                         storage: self.storage,
                         root_page: self.root_page,
                         current_page,
                         current_index: index,
-                        exhausted,
+                        exhausted: false,
                         leaf_hops: 0,
-                    });
+                    };
+                    cursor.settle_forward()?;
+                    return Ok(cursor);
                 }
                 PageType::BTreeInterior => {
                     let interior = InteriorNode::from_page(page_data)?;
@@ -1419,14 +1429,22 @@ impl<'a, S: Storage> BTree<'a, S> {
                     let leaf = LeafNode::from_page(page_data)?;
                     let cell_count = leaf.cell_count() as usize;
                     if cell_count == 0 {
-                        return Ok(Cursor {
+                        let mut cursor = Cursor {
                             storage: self.storage,
                             root_page: self.root_page,
                             current_page,
                             current_index: 0,
                             exhausted: true,
                             leaf_hops: 0,
-                        });
+                        };
+                        if let Some((page_no, last_index)) =
+                            cursor.find_rightmost_in_subtree(self.root_page)?
+                        {
+                            cursor.current_page = page_no;
+                            cursor.current_index = last_index;
+                            cursor.exhausted = false;
+                        }
+                        return Ok(cursor);
                     }
                     return Ok(Cursor {
                         storage: self.storage,
@@ -1476,54 +1494,55 @@ impl<'a, S: Storage + ?Sized> Cursor<'a, S> {
         }
 
         self.current_index += 1;
+        self.settle_forward()
+    }
 
-        let page_data = self.storage.page(self.current_page)?;
-        let leaf = LeafNode::from_page(page_data)?;
+    /// Makes a cursor positioned at `current_index` of `current_page` rest on a
+    /// cell. If the index is past the leaf's last cell (also when the leaf is
+    /// empty: deletes never unlink leaves) the cursor moves along `next_leaf`
+    /// to the first cell of the next non-empty leaf; at the end of the chain it
+    /// becomes exhausted. Returns whether the cursor is valid.
+    fn settle_forward(&mut self) -> Result<bool> {
+        loop {
+            let page_data = self.storage.page(self.current_page)?;
+            let leaf = LeafNode::from_page(page_data)?;
 
-        if self.current_index < leaf.cell_count() as usize {
-            return Ok(true);
+            if self.current_index < leaf.cell_count() as usize {
+                return Ok(true);
+            }
+
+            let next_page = leaf.next_leaf();
+
+            if next_page == 0 {
+                self.exhausted = true;
+                return Ok(false);
+            }
+
+            let page_count = self.storage.page_count();
+            if next_page >= page_count {
+                bail!(
+                    "corrupt next_leaf pointer: page {} has next_leaf={} but page_count={}",
+                    self.current_page,
+                    next_page,
+                    page_count
+                );
+            }
+
+            self.leaf_hops += 1;
+            if self.leaf_hops > page_count {
+                bail!(
+                    "corrupt next_leaf chain: followed {} leaf links in a file of {} pages (cycle through page {})",
+                    self.leaf_hops,
+                    page_count,
+                    next_page
+                );
+            }
+
+            self.storage.prefetch_pages(next_page + 1, 2);
+
+            self.current_page = next_page;
+            self.current_index = 0;
         }
-
-        let next_page = leaf.next_leaf();
-
-        if next_page == 0 {
-            self.exhausted = true;
-            return Ok(false);
-        }
-
-        let page_count = self.storage.page_count();
-        if next_page >= page_count {
-            bail!(
-                "corrupt next_leaf pointer: page {} has next_leaf={} but page_count={}",
-                self.current_page,
-                next_page,
-                page_count
-            );
-        }
-
-        self.leaf_hops += 1;
-        if self.leaf_hops > page_count {
-            bail!(
-                "corrupt next_leaf chain: followed {} leaf links in a file of {} pages (cycle through page {})",
-                self.leaf_hops,
-                page_count,
-                next_page
-            );
-        }
-
-        self.storage.prefetch_pages(next_page + 1, 2);
-
-        self.current_page = next_page;
-        self.current_index = 0;
-
-        let next_page_data = self.storage.page(self.current_page)?;
-        let next_leaf = LeafNode::from_page(next_page_data)?;
-        if next_leaf.cell_count() == 0 {
-            self.exhausted = true;
-            return Ok(false);
-        }
-
-        Ok(true)
     }
 
     pub fn prev(&mut self) -> Result<bool> {
@@ -1604,55 +1623,71 @@ impl<'a, S: Storage + ?Sized> Cursor<'a, S> {
             );
         }
 
+        // Try the siblings left of the child we came from, nearest first. A
+        // subtree whose leaves were all emptied yields nothing and is skipped.
         while let Some((parent_page, child_idx)) = path.pop() {
-            if child_idx > 0 {
-                let page_data = self.storage.page(parent_page)?;
-                let interior = InteriorNode::from_page(page_data)?;
+            let page_data = self.storage.page(parent_page)?;
+            let interior = InteriorNode::from_page(page_data)?;
 
-                let prev_child = if child_idx == 1 {
-                    interior.slot_at(0)?.child_page()
-                } else if child_idx > 1 {
-                    let target_idx = child_idx - 1;
-                    if target_idx < interior.cell_count() as usize {
-                        interior.slot_at(target_idx)?.child_page()
-                    } else {
-                        interior.right_child()
-                    }
+            for idx in (0..child_idx).rev() {
+                let prev_child = if idx < interior.cell_count() as usize {
+                    interior.slot_at(idx)?.child_page()
                 } else {
-                    continue;
+                    interior.right_child()
                 };
 
-                return self.find_rightmost_in_subtree(prev_child);
+                if let Some(found) = self.find_rightmost_in_subtree(prev_child)? {
+                    return Ok(Some(found));
+                }
             }
         }
 
         Ok(None)
     }
 
-    fn find_rightmost_in_subtree(&self, mut page_no: u32) -> Result<Option<(u32, usize)>> {
-        loop {
-            let page_data = self.storage.page(page_no)?;
-            let header = PageHeader::from_bytes(page_data)?;
+    /// Last cell of the rightmost non-empty leaf below `page_no`. Children are
+    /// tried right to left because a leaf emptied by deletes stays in the tree.
+    fn find_rightmost_in_subtree(&self, page_no: u32) -> Result<Option<(u32, usize)>> {
+        self.find_rightmost_below(page_no, 0)
+    }
 
-            match header.page_type() {
-                PageType::BTreeLeaf => {
-                    let leaf = LeafNode::from_page(page_data)?;
-                    let count = leaf.cell_count() as usize;
-                    if count == 0 {
-                        return Ok(None);
-                    }
-                    return Ok(Some((page_no, count - 1)));
+    fn find_rightmost_below(&self, page_no: u32, depth: usize) -> Result<Option<(u32, usize)>> {
+        ensure!(
+            depth < 64,
+            "tree deeper than 64 levels at page {} during find_rightmost",
+            page_no
+        );
+
+        let page_data = self.storage.page(page_no)?;
+        let header = PageHeader::from_bytes(page_data)?;
+
+        match header.page_type() {
+            PageType::BTreeLeaf => {
+                let leaf = LeafNode::from_page(page_data)?;
+                let count = leaf.cell_count() as usize;
+                if count == 0 {
+                    return Ok(None);
                 }
-                PageType::BTreeInterior => {
-                    let interior = InteriorNode::from_page(page_data)?;
-                    page_no = interior.right_child();
-                }
-                _ => bail!(
-                    "unexpected page type {:?} during find_rightmost at page {}",
-                    header.page_type(),
-                    page_no
-                ),
+                Ok(Some((page_no, count - 1)))
             }
+            PageType::BTreeInterior => {
+                let interior = InteriorNode::from_page(page_data)?;
+                if let Some(found) = self.find_rightmost_below(interior.right_child(), depth + 1)? {
+                    return Ok(Some(found));
+                }
+                for idx in (0..interior.cell_count() as usize).rev() {
+                    let child = interior.slot_at(idx)?.child_page();
+                    if let Some(found) = self.find_rightmost_below(child, depth + 1)? {
+                        return Ok(Some(found));
+                    }
+                }
+                Ok(None)
+            }
+            _ => bail!(
+                "unexpected page type {:?} during find_rightmost at page {}",
+                header.page_type(),
+                page_no
+            ),
         }
     }
 }
